@@ -35,10 +35,10 @@ RULE = ("corpus (D18, D20 x3, empty frame, text-ordered ints); exhaustive: every
         "min, max, first, last} x target kind rotating (thorough: all of) numeric/fixed/indexed, hint on when the frame is sorted; "
         "every sequence of <= 3 (thorough 4) strings from a 6-string alphabet (prefixes, empty, trailing blank, non-ASCII) as one "
         "group and as two groups for string min/max; every Session.aggregate_* fn on every index over {0,1,2} with <= 4 rows; "
-        "seeded random frames (1-3 key columns of int32/int64/float64/S3 incl. mixed, values beyond 2^53, up to 60 / 3000 rows, "
+        "seeded random frames (1-3 key columns of int32/int64/float64/S3/indexed string incl. mixed, values beyond 2^53, up to 60 / 3000 rows, "
         "sorted with hint / sorted without / unsorted) and a malformed stream (ragged keys, no keys, aggregate without target / "
-        "wrong length). Non-trivial = at least two groups, one of them with at least two rows, and (for groupby) an aggregate "
-        "that depends on the rows; distinct = distinct case dict.")
+        "wrong length; a few untruthful hints, compared with the model only). Non-trivial = at least two groups and at least one "
+        "group with two or more rows; distinct = distinct case dict.")
 ASSUMPTIONS = ["all columns of a dataframe have the same number of rows (ragged key columns are only run as an error case)",
                "np.argsort(kind='stable') is a stable sort (modelled by List.mergeSort)",
                "numpy/numba compare int32/int64/float64 values and fixed-length byte strings as the total order the model uses on Int "
@@ -90,8 +90,17 @@ def is_sorted_rows(keys):
     return all(rows[i - 1] <= rows[i] for i in range(1, len(rows)))
 
 
+def kenc(k):
+    """encoding of the strings of a key column: indexed strings are text (utf-8), fixed strings latin-1 renderings of bytes"""
+    return "utf-8" if k["dtype"] == "indexed" else "latin-1"
+
+
+def is_str_key(k):
+    return k["dtype"].startswith("S") or k["dtype"] == "indexed"
+
+
 def key_rows(keys):
-    cols = [[(x.encode("latin-1") if isinstance(x, str) else x) for x in k["data"]] for k in keys]
+    cols = [[(x.encode(kenc(k)) if isinstance(x, str) else x) for x in k["data"]] for k in keys]
     return list(zip(*cols)) if cols else []
 
 
@@ -124,8 +133,9 @@ def gen_cases(tier, rng):
             for agg in AGGS:
                 for tk in ([kinds[cnt % 3]] if quick or agg in ("count", "distinct") else kinds):
                     cnt += 1
-                    kd = ["int32", "int64", "S3", "float64"][cnt % 4] if ncols == 1 else ["int64", "int32"][cnt % 2]
-                    keys = [keycol(kd, [FIXED[x + 1] for x in c] if kd == "S3" else c) for c in cols]
+                    kd = ["int32", "int64", "S3", "float64", "indexed"][cnt % 5] if ncols == 1 else ["int64", "int32", "indexed"][cnt % 3]
+                    keys = [keycol(kd, [FIXED[x + 1] for x in c] if kd == "S3" else [STRS[x + 1] for x in c] if kd == "indexed" else c)
+                            for c in cols]
                     tg = [mk_target(tk, n, cnt)]
                     srt = is_sorted_rows(keys)
                     cases.append(mk_groupby(keys, agg, tg, srt and cnt % 2 == 0, cnt))
@@ -176,6 +186,8 @@ def mk_aggregate(idx, fn, k, rng=None):
 def rand_key_values(rng, dtype, n, card, pool_kind):
     if dtype == "S3":
         pool = rng.sample(FIXED, min(card, len(FIXED)))
+    elif dtype == "indexed":
+        pool = rng.sample(STRS, min(card, len(STRS)))
     elif pool_kind == "big" and dtype == "int64":
         pool = rng.sample(BIG, min(card, len(BIG)))
     elif pool_kind == "dec":
@@ -194,7 +206,7 @@ def rand_groupby(rng, t, quick):
     ncols = rng.choice([1, 1, 2, 2, 3])
     mixed = rng.random() < 0.3
     if ncols == 1 or not mixed:
-        d = rng.choice(["int32", "int64", "float64", "S3"])
+        d = rng.choice(["int32", "int64", "float64", "S3", "indexed"])
         dts = [d] * ncols
     else:
         fam = rng.choice(["intfloat", "ints", "intstr"])
@@ -203,13 +215,14 @@ def rand_groupby(rng, t, quick):
         elif fam == "ints":
             dts = [rng.choice(["int64", "int32"]) for _ in range(ncols)]
         else:
-            dts = [rng.choice(["int64", "S3", "int32"]) for _ in range(ncols)]
-    has_s = "S3" in dts
+            st = rng.choice(["S3", "indexed"])
+            dts = [rng.choice(["int64", st, "int32"]) for _ in range(ncols)]
+    has_s = "S3" in dts or "indexed" in dts
     has_f = "float64" in dts
     keys = []
     for d in dts:
         card = rng.choice([1, 2, 3, 5, max(1, n // 2 + 1)])
-        pk = "dec" if has_s and d != "S3" else ("big" if d == "int64" and rng.random() < (0.6 if has_f else 0.25) else "small")
+        pk = "dec" if has_s and d not in ("S3", "indexed") else ("big" if d == "int64" and rng.random() < (0.6 if has_f else 0.25) else "small")
         keys.append(keycol(d, rand_key_values(rng, d, n, card, pk)))
     shape = rng.choice(["unsorted", "unsorted", "sorted", "sorted_hint"])
     tcols = [mk_target(rng.choice(["numeric", "fixed", "indexed"]), n, t, rng) for _ in range(rng.choice([1, 1, 2]))]
@@ -217,7 +230,10 @@ def rand_groupby(rng, t, quick):
         order = sorted(range(n), key=lambda i: key_rows(keys)[i])
         keys = [keycol(k["dtype"], [k["data"][i] for i in order]) for k in keys]
     agg = rng.choice(AGGS)
-    return mk_groupby(keys, agg, tcols, shape == "sorted_hint", t)
+    hint = shape == "sorted_hint"
+    if shape == "unsorted" and rng.random() < 0.06:
+        hint = True      # untruthful hint: outside the property, compared with the model only
+    return mk_groupby(keys, agg, tcols, hint, t)
 
 
 def rand_aggregate(rng, t):
@@ -253,8 +269,8 @@ def malformed(rng, m):
 # ------------------------------------------------------------------------------------------------------------------
 
 def cast_tags(dtypes):
-    if any(d.startswith("S") for d in dtypes):
-        return ["id" if d.startswith("S") else "dec" for d in dtypes]
+    if any(d.startswith("S") or d == "indexed" for d in dtypes):
+        return ["id" if d.startswith("S") or d == "indexed" else "dec" for d in dtypes]
     if any(d.startswith("float") for d in dtypes):
         return ["f64" if d == "int64" else "id" for d in dtypes]
     return ["id"] * len(dtypes)
@@ -268,8 +284,8 @@ def cast_py(tag, x):
     return x
 
 
-def rank_table(values):
-    return sorted(set(v.encode("latin-1") for v in values))
+def rank_table(values, enc="latin-1"):
+    return sorted(set(v.encode(enc) for v in values))
 
 
 def to_model(case):
@@ -277,9 +293,9 @@ def to_model(case):
         tags = cast_tags([k["dtype"] for k in case["keys"]])
         keys = []
         for k, tag in zip(case["keys"], tags):
-            if k["dtype"].startswith("S"):
-                tab = rank_table(k["data"])
-                keys.append({"cast": "id", "data": [tab.index(v.encode("latin-1")) for v in k["data"]]})
+            if is_str_key(k):
+                tab = rank_table(k["data"], kenc(k))
+                keys.append({"cast": "id", "data": [tab.index(v.encode(kenc(k))) for v in k["data"]]})
             else:
                 keys.append({"cast": tag, "data": k["data"]})
         targets = []
@@ -363,7 +379,9 @@ def impl_groupby(np, ds, case):
     for j, k in enumerate(case["keys"]):
         nm = "k%d" % j
         knames.append(nm)
-        if k["dtype"].startswith("S"):
+        if k["dtype"] == "indexed":
+            df.create_indexed_string(nm).data.write(list(k["data"]))
+        elif k["dtype"].startswith("S"):
             df.create_fixed_string(nm, int(k["dtype"][1:])).data.write(
                 np.array([v.encode("latin-1") for v in k["data"]], dtype=k["dtype"]))
         else:
@@ -544,8 +562,8 @@ def decode_model(case, m):
         return {"vals": m}
     keys = []
     for k, col in zip(case["keys"], m["keys"]):
-        if k["dtype"].startswith("S"):
-            tab = rank_table(k["data"])
+        if is_str_key(k):
+            tab = rank_table(k["data"], kenc(k))
             keys.append([tab[r].decode("latin-1") for r in col])
         else:
             keys.append(col)
@@ -596,7 +614,8 @@ def classify(case, mo):
         rows = key_rows(case["keys"])
         tags.append("rows:" + ("0" if not rows else "1-8" if len(rows) <= 8 else "9-99" if len(rows) < 100 else ">=100"))
         tags.append("keys:%d" % len(case["keys"]))
-        tags.append("hint" if case["hint"] else ("sorted" if is_sorted_rows(case["keys"]) else "unsorted"))
+        srt = is_sorted_rows(case["keys"])
+        tags.append(("hint" if srt else "untruthful-hint") if case["hint"] else ("sorted" if srt else "unsorted"))
         for t in case["targets"]:
             tags.append("target:" + t["kind"])
         ct = cast_tags([k["dtype"] for k in case["keys"]])
